@@ -278,12 +278,31 @@ fn shiftpow_case(sa: bool, a: &[u64], k: u64) -> Verdict {
     agree("Pow::pow(a, BigUint)", &c, catch(|| Pow::pow(x.clone(), be.clone())), canon_i)?;
     agree("Pow::pow(&a, BigUint)", &c, catch(|| Pow::pow(&x, be.clone())), canon_i)?;
     agree("Pow::pow(a, &BigUint)", &c, catch(|| Pow::pow(x.clone(), &be)), canon_i)?;
-    agree("BigInt::pow(u32)", &c, catch(|| x.pow(e as u32)), canon_i)?;
+    agree("BigInt::pow(u32)", &c, catch(|| BigInt::pow(&x, e as u32)), canon_i)?;
     let c = catch(|| Pow::pow(&u, &be));
     agree("Pow::pow(a, BigUint)", &c, catch(|| Pow::pow(u.clone(), be.clone())), canon_u)?;
     agree("Pow::pow(&a, BigUint)", &c, catch(|| Pow::pow(&u, be.clone())), canon_u)?;
     agree("Pow::pow(a, &BigUint)", &c, catch(|| Pow::pow(u.clone(), &be)), canon_u)?;
-    agree("BigUint::pow(u32)", &c, catch(|| u.pow(e as u32)), canon_u)?;
+    agree("BigUint::pow(u32)", &c, catch(|| BigUint::pow(&u, e as u32)), canon_u)?;
+    // BigUint exponents beyond u64 / u128 (only bases 0 and +-1 keep the result representable): every val/ref form
+    // must agree with the canonical `Pow::pow(&a, &e)`
+    if a.len() <= 1 && a.first().map_or(true, |d| *d == 1) {
+        for ed in [vec![0u64, 1], vec![1, 1], vec![0, 0, 1], vec![1, 0, 1], vec![u64::MAX, u64::MAX], vec![5, 0, 0, 2]] {
+            let be = bu(&ed);
+            let c = catch(|| Pow::pow(&x, &be));
+            agree("Pow::pow(a, huge BigUint)", &c, catch(|| Pow::pow(x.clone(), be.clone())), canon_i)?;
+            agree("Pow::pow(&a, huge BigUint)", &c, catch(|| Pow::pow(&x, be.clone())), canon_i)?;
+            agree("Pow::pow(a, &huge BigUint)", &c, catch(|| Pow::pow(x.clone(), &be)), canon_i)?;
+            let c = catch(|| Pow::pow(&u, &be));
+            agree("Pow::pow(a, huge BigUint) [BigUint]", &c, catch(|| Pow::pow(u.clone(), be.clone())), canon_u)?;
+            agree("Pow::pow(&a, huge BigUint) [BigUint]", &c, catch(|| Pow::pow(&u, be.clone())), canon_u)?;
+            agree("Pow::pow(a, &huge BigUint) [BigUint]", &c, catch(|| Pow::pow(u.clone(), &be)), canon_u)?;
+            if c.is_err() {
+                return Err("canonical Pow::pow(&a, &huge exponent) panicked for a base in {0, 1, -1}".into());
+            }
+        }
+        FORMS.with(|f| { f.borrow_mut().insert("Pow x BigUint exponents beyond u64/u128 (bases 0, +-1) x {val,ref}^2"); });
+    }
     Ok(Info::new(!a.is_empty() && k > 0).class("shift_and_pow_forms"))
 }
 
@@ -341,6 +360,7 @@ impl Property for C10 {
                 Case::new("scalar", vec![Arg::Z(sa, if m.neg { vec![] } else { m.mag.to_u64_digits() }), Arg::I(s)])
             }),
             5 => (big(), (i128::MAX as u128 + 1)..=u128::MAX).prop_map(|(a, s)| Case::new("scalar.u", vec![Arg::N(a), Arg::U(s)])),
+            2 => (any::<bool>(), proptest::sample::select(vec![vec![], vec![1u64]]), 0u64..40).prop_map(|(sa, a, k)| Case::new("shiftpow", vec![Arg::Z(sa, a), Arg::U(k as u128)])),
             10 => (any::<bool>(), big(), prop_oneof![4 => gen::shift_amount(4), 3 => 0u64..40, 3 => 600u64..100_000]).prop_map(|(sa, a, k)| Case::new("shiftpow", vec![Arg::Z(sa, a), Arg::U(k as u128)])),
             5 => (proptest::collection::vec((any::<bool>(), gen::nat(2)).prop_map(|(s, v)| Arg::Z(s, v)), 0..6), proptest::collection::vec(gen::scalar_i128().prop_map(|v| Arg::I((v as i64 as i128) % 100_000)), 0..6))
                 .prop_map(|(items, sc)| Case::new("sumprod", vec![Arg::L(items), Arg::L(sc)])),
